@@ -611,6 +611,7 @@ Definition try_create (c : cfg) (fs : list Z) (nsecs : Z) (overflow : bool) (off
   let check_year (t : ts) : res ts :=
     if fx_fields c && negb (in_range 1 (go_year (t_time t)) 9999) then Err else Ok t in
   if rank p <=? 3 then check_year (new_date_ts date p) else
+  if (offset <=? -1440) || (1440 <=? offset) then Err else      (* a local offset is less than a day *)
   let date := if overflow then go_add_sec date 1 else date in
   if offset =? 0 then check_year (new_ts_frac date p (if neg then KUnspec else KUTC) fp)
   else check_year (new_ts_frac (go_in date (i64 (offset * 60))) p KLocal fp).
@@ -620,6 +621,7 @@ Definition read_ts_body (c : cfg) (len : N) (inp : list N) : res ts :=
   do '(offset, neg, olen, rest) <- read_varint len inp;
   let len := (len - olen)%N in
   do '(len, pr, fs, rest) <- read_fields 6 len 0 [1; 1; 1; 0; 0; 0] rest;
+  if pr =? 0 then Err else              (* the offset must be followed by at least the year *)
   do '(nsecs, overflow, fp) <-
      (if (0 <? len)%N then read_nsecs c len rest else Ok (0, false, 0));
   let pr := if 0 <? fp then 6 else pr in
